@@ -23,7 +23,10 @@ The operations (`istep f`) follow the same code as `RStore.step`, with the inter
   `{Name: name}`) and `RemoveChildTrait(name)` (= an update): stored under `f(id)`; the key field is always among the
   written fields, so an existing item is RE-SPELLED to `id`;
 * `Delete*(id)` removes `f(id)`;
-* initial records are NOT intercepted: `NewCollection` stores them under the id they were configured with.
+* initial records (`WithInitial…(msg)`, `resource.WithInitialRecord(id, msg)`): since 215ba16 `NewCollection` keeps
+  a record under `f(id)` like every other route (before it the record was kept under the id as configured and was
+  unreachable by id: `istepWith false`), and two initial records that `f` maps to one id are refused (panic at
+  construction, as a repeated id always was).
 -/
 namespace ScVerif.C15
 
@@ -37,7 +40,7 @@ def RStore.iwrite (s : RStore) (sid fld : String) (upsert writesKey : Bool) : RS
   let r := s.write sid fld upsert writesKey
   (r.1, match r.2 with | .ok _ => .ok fld | x => x)
 
-def RStore.istep (f : String → String) (s : RStore) : RecOp → RStore × StoreRes
+def RStore.istepWith (fixed : Bool) (f : String → String) (s : RStore) : RecOp → RStore × StoreRes
   | .add id cand =>
     match (if f id = "" then (genId cand (fun c => decide (f c ∈ s.ids)) 10 0).map (fun c => (f c, f c))
            else some (f id, id)) with
@@ -56,8 +59,16 @@ def RStore.istep (f : String → String) (s : RStore) : RecOp → RStore × Stor
     if f id ∈ s.ids then (s.filter (fun r => r.id != f id), .ok id)
     else if allowMissing then (s, .ok id) else (s, .notFound)
   | .initial key =>
+    let sid := if fixed then f key else key
     if key = "" then (s, .rejected)
-    else if key ∈ s.ids then (s, .alreadyExists) else ({ id := key, key := key } :: s, .ok key)
+    else if sid ∈ s.ids then (s, .alreadyExists) else ({ id := sid, key := key } :: s, .ok key)
+
+/-- The code as it is now (initial records intercepted: 215ba16). -/
+def RStore.istep (f : String → String) (s : RStore) (op : RecOp) : RStore × StoreRes := s.istepWith true f op
+
+def RStore.irunWith (fixed : Bool) (f : String → String) (s : RStore) : List RecOp → RStore
+  | [] => s
+  | op :: ops => RStore.irunWith fixed f (s.istepWith fixed f op).1 ops
 
 def RStore.irun (f : String → String) (s : RStore) : List RecOp → RStore
   | [] => s
@@ -105,11 +116,11 @@ structure GoodIcpt (f : String → String) : Prop where
   /-- normalising twice is normalising once -/
   idem : ∀ x, f (f x) = f x
 
-theorem RStore.istep_iinv {f : String → String} (hf : GoodIcpt f) (s : RStore) (op : RecOp) (h : s.IInv f)
-    (hinit : ∀ k, op = .initial k → f k = k) : (s.istep f op).1.IInv f := by
+theorem RStore.istep_iinv {f : String → String} (hf : GoodIcpt f) (s : RStore) (op : RecOp) (h : s.IInv f) :
+    (s.istep f op).1.IInv f := by
   cases op with
   | add id cand =>
-    simp only [RStore.istep]
+    simp only [RStore.istep, RStore.istepWith]
     by_cases he : f id = ""
     · simp only [he, if_true]
       cases hg : genId cand (fun c => decide (f c ∈ s.ids)) 10 0 with
@@ -127,7 +138,7 @@ theorem RStore.istep_iinv {f : String → String} (hf : GoodIcpt f) (s : RStore)
         have hid : id ≠ "" := fun e => he (e ▸ hf.empty)
         exact iinv_cons h hm rfl hid
   | ensure name =>
-    simp only [RStore.istep]
+    simp only [RStore.istep, RStore.istepWith]
     by_cases hn : name = ""
     · simp only [hn, if_true]; exact h
     · simp only [hn, if_false]
@@ -135,12 +146,12 @@ theorem RStore.istep_iinv {f : String → String} (hf : GoodIcpt f) (s : RStore)
       · simp only [hm, if_true]; exact h
       · simp only [hm, if_false]; exact iinv_cons h hm rfl hn
   | updateMsg k upsert mask =>
-    simp only [RStore.istep, RStore.iwrite, Mask.moreKey_writesKey]
+    simp only [RStore.istep, RStore.istepWith, RStore.iwrite, Mask.moreKey_writesKey]
     by_cases hk : k = ""
     · simp only [hk, if_true]; exact h
     · simp only [hk, if_false]; exact write_iinv h k hk upsert
   | updateId id msgKey upsert mask =>
-    simp only [RStore.istep, RStore.iwrite, Mask.moreKey_writesKey]
+    simp only [RStore.istep, RStore.istepWith, RStore.iwrite, Mask.moreKey_writesKey]
     by_cases hk : id = ""
     · simp only [hk, if_true]; exact h
     · simp only [hk, if_false]
@@ -149,7 +160,7 @@ theorem RStore.istep_iinv {f : String → String} (hf : GoodIcpt f) (s : RStore)
       rw [hw]
       exact write_iinv h id hk upsert
   | delete id allowMissing =>
-    simp only [RStore.istep]
+    simp only [RStore.istep, RStore.istepWith]
     by_cases hm : f id ∈ s.ids
     · simp only [hm, if_true]
       refine ⟨?_, fun r hr => h.2 r (List.mem_filter.mp hr).1⟩
@@ -158,24 +169,23 @@ theorem RStore.istep_iinv {f : String → String} (hf : GoodIcpt f) (s : RStore)
     · simp only [hm, if_false]
       cases allowMissing <;> exact h
   | initial key =>
-    simp only [RStore.istep]
+    simp only [RStore.istep, RStore.istepWith]
     by_cases hn : key = ""
     · simp only [hn, if_true]; exact h
-    · simp only [hn, if_false]
-      by_cases hm : key ∈ s.ids
+    · simp only [hn, if_false, if_true]
+      by_cases hm : f key ∈ s.ids
       · simp only [hm, if_true]; exact h
       · simp only [hm, if_false]
-        exact iinv_cons h hm (hinit key rfl).symm hn
+        exact iinv_cons h hm rfl hn
 
 theorem RStore.irun_iinv {f : String → String} (hf : GoodIcpt f) : ∀ (ops : List RecOp) (s : RStore), s.IInv f →
-    (∀ k, RecOp.initial k ∈ ops → f k = k) → (s.irun f ops).IInv f := by
+    (s.irun f ops).IInv f := by
   intro ops
   induction ops with
-  | nil => intro s h _; exact h
+  | nil => intro s h; exact h
   | cons op ops ih =>
-    intro s h hinit
-    exact ih _ (s.istep_iinv hf op h (fun k e => hinit k (e ▸ List.mem_cons_self)))
-      (fun k hk => hinit k (List.mem_cons_of_mem _ hk))
+    intro s h
+    exact ih _ (s.istep_iinv hf op h)
 
 /-- Distinct map keys + `id = f key` ⇒ distinct key fields. -/
 theorem keys_nodup {f : String → String} : ∀ {s : RStore}, s.IInv f → (s.map (·.key)).Nodup := by
@@ -213,14 +223,14 @@ theorem flisting_facts {f : String → String} {s : RStore} (h : s.IInv f) :
 theorem RStore.istep_id (s : RStore) (op : RecOp) : s.istep id op = s.step op := by
   cases op with
   | add i cand =>
-    simp only [RStore.istep, RStore.step, RStore.stepWith, id]
+    simp only [RStore.istep, RStore.istepWith, RStore.step, RStore.stepWith, id]
     by_cases he : i = ""
     · simp only [he, if_true]
       cases genId cand (fun c => decide (c ∈ s.ids)) 10 0 <;> rfl
     · simp only [he, if_false]
   | ensure name => rfl
   | updateMsg k upsert mask =>
-    simp only [RStore.istep, RStore.step, RStore.stepWith, RStore.iwrite, id, if_true]
+    simp only [RStore.istep, RStore.istepWith, RStore.step, RStore.stepWith, RStore.iwrite, id, if_true]
     by_cases hk : k = ""
     · simp [hk]
     · simp only [hk, if_false]
@@ -229,7 +239,7 @@ theorem RStore.istep_id (s : RStore) (op : RecOp) : s.istep id op = s.step op :=
       · simp [hm]
       · cases upsert <;> simp [hm]
   | updateId i msgKey upsert mask =>
-    simp only [RStore.istep, RStore.step, RStore.stepWith, RStore.iwrite, id, if_true, Bool.true_and,
+    simp only [RStore.istep, RStore.istepWith, RStore.step, RStore.stepWith, RStore.iwrite, id, if_true, Bool.true_and,
       decide_eq_true_eq]
     by_cases hk : i = ""
     · simp [hk]
